@@ -356,6 +356,21 @@ func build(tier string) ([]runner.Instance, time.Duration) {
 			}
 		}
 	}
+	if tier != "thorough" {
+		// quick: inputs one longer than buffer + workers for the buffered stages, so that a
+		// sender can meet a FULL buffer after the consumer has stopped reading
+		for _, c := range constructs() {
+			if c.name == "ParallelBuffer" || c.name == "Buffer" || c.name == "BufferedChannel" {
+				for _, stop := range []string{"close", "cancel"} {
+					if c.name == "BufferedChannel" && stop == "close" {
+						continue
+					}
+					add(c, 3, 0, 2, stop, false, bound)
+					add(c, 4, 1, 2, stop, false, bound) // one item read, three more for two buffer slots
+				}
+			}
+		}
+	}
 	return out, budget
 }
 
